@@ -117,6 +117,17 @@ func c15Seed(spec *world.Spec, n int, sharedIDs bool) {
 	}
 }
 
+// c15VerifyAssertion: an assertion that left under concurrency verifies like any other (own verifier and goxmldsig agree).
+func c15VerifyAssertion(cc *c15Collect, i int, op string, d *obs.Decoded, a *obs.AssertionInfo) {
+	if a == nil || a.Node == nil || a.Node.Child(world.NSDS, "Signature") == nil {
+		return // unsigned assertions are C04's (redirect replies sign the query string)
+	}
+	stats := map[string]int{}
+	if v := verifyEnvelopedOnWire("assertion under concurrency", d.XML, a.Node, world.Key("idp-response").CertB64(), stats); v != nil {
+		cc.add(ev.V("C15/assertion-signature-does-not-verify", "client %d %s: %s", i, op, v.What))
+	}
+}
+
 var reTok = regexp.MustCompile(`zz(\d+)zz`)
 
 type c15Collect struct {
@@ -332,7 +343,7 @@ func c15ClientOpt(w *world.World, spec world.Spec, i int, ops []string, yield in
 			}
 			s2 := spec
 			s2.Apps = map[string]string{sp.AppID: sp.EntityID}
-			vs, _ := c03Compare(s2, host, stored.S, user, rep2, t0, t1)
+			vs, d3 := c03Compare(s2, host, stored.S, user, rep2, t0, t1)
 			for _, v := range vs {
 				if v.Key == "C03/id-reused" {
 					v.Key = "C15/duplicate-id"
@@ -341,6 +352,11 @@ func c15ClientOpt(w *world.World, spec world.Spec, i int, ops []string, yield in
 				}
 				v.What = fmt.Sprintf("client %d: %s", i, v.What)
 				cc.add(v)
+			}
+			if len(vs) == 0 && d3 != nil && d3.Doc != nil {
+				if r3 := obs.ReadResponse(obs.FindResponse(d3.Root())); r3 != nil && r3.Success() && len(r3.Assertions) == 1 {
+					c15VerifyAssertion(cc, i, op, d3, r3.Assertions[0])
+				}
 			}
 		case "logout":
 			l := spsim.NewLogoutReq(reqID, sp.EntityID, user.Username)
@@ -359,6 +375,16 @@ func c15ClientOpt(w *world.World, spec world.Spec, i int, ops []string, yield in
 			}
 		case "attrquery":
 			q := spsim.NewAttrQuery(reqID, sp.EntityID, user.LoginName)
+			if (i+k)%2 == 1 {
+				// all attributes by name, one of them with the values the requester is interested in (the answer is by name)
+				for _, e := range expectedAttrs(user) {
+					qa := spsim.QAttr{Name: e.Name, NameFormat: e.NameFormat, FriendlyName: A}
+					if len(e.Values) > 1 {
+						qa.Values = e.Values[:1]
+					}
+					q.Attrs = append(q.Attrs, qa)
+				}
+			}
 			hr, _, _ := spsim.Encode(spec.IdP.Route("attribute"), wr(spsim.Envelope(q.QueryTree(plainStyle), "soap")), spsim.Transport{Binding: "soap"}, nil)
 			rep, _, _ := do(op, hr)
 			d := obs.Decode(rep)
@@ -373,6 +399,7 @@ func c15ClientOpt(w *world.World, spec world.Spec, i int, ops []string, yield in
 			if r.InResponseTo != reqID || r.Issuer != entity || a.NameID != user.Username || len(a.Audiences) != 1 || a.Audiences[0] != sp.EntityID || attrMultisetDiff(expectedAttrs(user), a.Attrs) != "" {
 				cc.add(ev.V("C15/attrquery-response-mixed-up", "client %d: InResponseTo %q Issuer %q NameID %q Audience %v", i, r.InResponseTo, r.Issuer, a.NameID, a.Audiences))
 			}
+			c15VerifyAssertion(cc, i, op, d, r.Assertions[0])
 		case "metadata":
 			rep, _, _ := do(op, obs.HTTPReq{Method: "GET", Path: spec.IdP.Route("metadata")})
 			doc, err := xt.Parse(rep.Body)
